@@ -1185,3 +1185,15 @@ v("ending-shadows-its-task-id", [(P, "        self._enough_room.release()\n     
 v("omit-default-is-a-string", [(PA, "OMIT_PARAMS_DEFAULT = (\"self\",)\n", "OMIT_PARAMS_DEFAULT = \"self\"\n")], {"C16": "R16.8", "C17": "R17.10"})
 v("dispatch-executors-swapped", [(SESS, "        if isfunction(command):\n            await self._exec_method_and_respond(command, **kwargs)\n        elif isinstance(command, property):\n            await self._exec_property_and_respond(command, **kwargs)\n", "        if isfunction(command):\n            await self._exec_property_and_respond(command, **kwargs)\n        elif isinstance(command, property):\n            await self._exec_method_and_respond(command, **kwargs)\n")], {"C17": "alarm"})
 v("function-command-without-description", [(PA, "        subparser_kwargs.setdefault(\"help\", get_first_doc_line(function))\n        subparser_kwargs.setdefault(\"description\", subparser_kwargs[\"help\"])\n", "        subparser_kwargs.setdefault(\"help\", get_first_doc_line(function))\n")], {"C16": "R16.2"})
+
+# ---- round 16 / batch 17
+v("P-forget-spawners-helper", [], {"C07": "ok", "C08": "ok", "C10": "ok"}, base="rf162")
+v("forget-spawners-helper-not-remembered", [(P, "        self._meta_tasks_cancelled.update(meta_tasks)\n", "")], {"C07": "R07.2"}, base="rf162")
+v("P-star-callers-table", [], {"C05": "ok", "C12": "ok"}, base="rf163")
+v("star-callers-table-rows-swapped", [(HELPERS, "    (1, _call_star),\n    (2, _call_double_star),\n", "    (1, _call_double_star),\n    (2, _call_star),\n")], {"C05": "R05.1"}, base="rf163")
+v("star-caller-drops-the-element", [(HELPERS, "    \"\"\"Calls `function(arg)`.\"\"\"\n    return function(arg)\n", "    \"\"\"Calls `function(arg)`.\"\"\"\n    return function()\n")], {"C05": "R05.1"}, base="rf163")
+v("command-word-lower-cased", [(SESS, "            kwargs = vars(self._parser.parse_args(msg.split(\" \")))\n", "            words = msg.split(\" \")\n            words[0] = words[0].lower()\n            kwargs = vars(self._parser.parse_args(words))\n")], {"C16": "R16.9", "C17": "R17.5"})
+v("P-words-in-a-local", [(SESS, "            kwargs = vars(self._parser.parse_args(msg.split(\" \")))\n", "            words = msg.split(\" \")\n            kwargs = vars(self._parser.parse_args(words))\n")], {"C16": "ok", "C17": "ok", "C18": "ok"})
+v("parser-overrides-parse-args", [(PA, "    def _print_message(self, message: str, *_args: Any, **_kwargs: Any) -> None:\n", "    def parse_args(self, args=None, namespace=None):  # type: ignore[override]\n        if args is not None:\n            args = [a.replace(\"_\", \"-\") if a.startswith(\"--\") else a for a in args]\n        return super().parse_args(args, namespace)\n\n    def _print_message(self, message: str, *_args: Any, **_kwargs: Any) -> None:\n")], {"C17": "R17.12", "C16": "R16.6"})
+v("stop-fast-path-truthy-id", [(P, "        ids = []\n        for i, task_id in enumerate(reversed(self._tasks_running)):\n", "        ids = []\n        newest = next(reversed(self._tasks_running), None)\n        if num == 1 and not newest:\n            return []\n        for i, task_id in enumerate(reversed(self._tasks_running)):\n")], {"C14": "R14.1"})
+v("close-skips-final-wait-when-nothing-runs", [(P, "        await gather(\n            *self._tasks_ended.values(),\n            *self._tasks_cancelled.values(),\n            *self._tasks_running.values(),\n            return_exceptions=return_exceptions,\n        )\n", "        if self._tasks_running:\n            await gather(\n                *self._tasks_ended.values(),\n                *self._tasks_cancelled.values(),\n                *self._tasks_running.values(),\n                return_exceptions=return_exceptions,\n            )\n")], {"C02": "R02.11", "C08": "viol", "C12": "viol"})
